@@ -35,6 +35,7 @@ namespace GeographicLib {
       DMS::DecodeLatLon(sa[0], sa[1], _lat, _long, longfirst);
       UTMUPS::Forward( _lat, _long,
                        _zone, _northp, _easting, _northing, _gamma, _k);
+      _long = Math::AngNormalize(_long);
     } else if (sa.size() == 3) {
       unsigned zoneind, coordind;
       if (sa[0].size() > 0 && isalpha(sa[0][sa[0].size() - 1])) {
